@@ -85,3 +85,7 @@ LEVEL_NOTE["C08"] = "Assumes loop-back UDP does not drop within the harness's in
 LEVEL_TEXT["C19"] = ("Exploration: generated call sequences on an engine handle before start, while running (1..4 goroutines), right after a shutdown request (live or expired context, optionally with a connection that needs 700 ms to close) and after the shutdown, "
                      "judged by a state x call -> allowed-results table, the exactly-one-result / usable-connection rule for Register and Enroll, run-once for runnables, and 'Stop returns nil only when every opened connection is closed and OnShutdown has run; an expired context returns its error and the shutdown still completes'.")
 LEVEL_NOTE["C19"] = "Calls issued while the shutdown is in progress may legitimately see either answer (Dup may also fail with a system-call error); a Register accepted during shutdown may never deliver (same class as the C07 known finding) and is not judged; client handles are not exercised."
+
+LEVEL_TEXT["C05"] = ("Exploration under the race detector: each case runs a real multi-loop engine (-race build, default and poll_opt+gc_opt) with echo traffic while 4..12 goroutines issue generated mixes of every operation the property lists as concurrency-safe, on live and already closed connections and across Engine.Stop; "
+                     "a data-race report whose two access stacks are both inside the framework is a violation (signature = the two innermost framework functions), and a per-loop record checks one goroutine per loop, distinct goroutines for distinct loops, no overlapping callbacks and no loop change.")
+LEVEL_NOTE["C05"] = "The detector sees only executed schedules; races involving harness frames are reported as infrastructure trouble, not as verdicts; -d=checkptr=0 for the poll_opt build (its unaligned epoll_event.data access trips checkptr, which is not a data race); Engine.Dup/DupListener are not in the property's list and are not raced against Stop."
